@@ -223,11 +223,50 @@ def sequences(tier):
 
 def shards(tier, seed):
     n = 32 if tier == 'quick' else 128
-    return [('seqs', tier, k, n) for k in range(n)]
+    return [('seqs', tier, k, n) for k in range(n)] + [('resave',)]
+
+
+def resave_history(res):
+    """The include targets are re-saved with new contents between two loads in one process."""
+    from pico8.game import file as p8file
+    d = setup_dir()
+    try:
+        main = os.path.join(d, 'main.p8')
+        open(main, 'wb').write(p8_text([b'#include inc.lua\n', b'#include inc2.p8:1\n', b'#include inc0.p8.png\n', b'z=1\n']))
+        versions = [
+            (LUA_FILES['inc.lua'], CART_CODE['inc2'], CART_CODE['inc0']),
+            (b'new=1\n', [b'n0=1\n', TAB, b'n1=2\n', TAB, b'n2=3\n'], [b'q=9\n']),
+            (b'third=3\nthird2=4\n', [b'm0=1\n', TAB, b'm1=5\n'], [b'r=7\n', b'r2=8\n']),
+        ]
+        for step, (lua, c2, c0) in enumerate(versions):
+            open(os.path.join(d, 'inc.lua'), 'wb').write(lua)
+            open(os.path.join(d, 'inc2.p8'), 'wb').write(p8_text(c2))
+            open(os.path.join(d, 'inc0.p8.png'), 'wb').write(png_bytes(c0))
+            res.evaluations += 1
+            res.nontriv(('resave', step))
+            case = {'resave': step}
+            try:
+                got = b''.join(p8file.from_file(main).lua.to_lines())
+            except Exception as e:
+                res.violation('C20|resave|raise|%s' % type(e).__name__, 'load %d raised %r' % (step, e), case)
+                return
+            want = lua + b''.join(tabs_of(c2)[1]) + b''.join(c0)
+            if got not in (want + b'z=1\n', want + b'\nz=1\n'):
+                res.violation('C20|resave|stale|step%d' % step,
+                              'after re-saving the include targets, the cart loads as %r, the files now splice to %r' % (
+                                  got, want + b'z=1\n'), case)
+                return
+            res.outcome(('resave', step))
+    finally:
+        shutil.rmtree(d, ignore_errors=True)
 
 
 def run_shard(item):
     res = ShardResult()
+    if item[0] == 'resave':
+        resave_history(res)
+        res.sample({'history': 'load; re-save inc.lua, inc2.p8, inc0.p8.png with new code; load again (x3)'})
+        return res
     _, tier, k, n = item
     d = setup_dir()
     try:
@@ -245,6 +284,9 @@ def run_shard(item):
 
 def replay(case):
     res = ShardResult()
+    if 'resave' in case:
+        resave_history(res)
+        return [(s, v[0]) for s, v in res.violations.items()]
     base, png = line_kinds()
     allk = base + png
     by_text = {line_text(k): k for k in allk}
